@@ -191,16 +191,18 @@ def check_c11(tier):
                        "MapCanonical/PermIndependent in every state; every terminal behaviour is replayed on the real Encoder and the recorded run, "
                        "plus seeded random call sequences (arbitrary 64-bit values, strings up to 70000 bytes, shuffled maps), is judged call by call "
                        "by Trace_CborEnc. distinct_nontrivial = distinct recorded call sequences whose output is longer than one byte")
-    configs = [("c1", 1, "full", "small", "small"), ("c2", 2, "small", "small", "small")]
+    configs = [("c1", 1, "full", "small", "small", False), ("c2", 2, "small", "small", "small", False),
+               # one encoder used on after a refusal: refused call, any call, any call - each judged on its own
+               ("r3", 3, "refused", "small", "small", True)]
     if tier != "quick":
-        configs += [("c2m", 2, "medium", "medium", "small"), ("c3", 3, "small", "small", "small")]
+        configs += [("c2m", 2, "medium", "medium", "small", False), ("c3", 3, "small", "small", "small", False), ("r3m", 3, "refused", "medium", "small", True), ("r3b", 3, "small", "refused", "medium", True)]
     wd = workdir("C11")
     allrun = os.path.join(wd, "run.ndjson")
     open(allrun, "w").close()
     nvec = 0
-    for name, mc, u1, u2, u3 in configs:
-        cfg = ("SPECIFICATION Spec\nCONSTANTS\n MaxCalls = %d\n U1 = \"%s\"\n U2 = \"%s\"\n U3 = \"%s\"\n"
-               "INVARIANTS RoundTrip ShortestHeads TextIsUtf8 MapCanonical PermIndependent DupRefused\nCHECK_DEADLOCK FALSE\n" % (mc, u1, u2, u3))
+    for name, mc, u1, u2, u3, goon in configs:
+        cfg = ("SPECIFICATION Spec\nCONSTANTS\n MaxCalls = %d\n U1 = \"%s\"\n U2 = \"%s\"\n U3 = \"%s\"\n GoOn = %s\n"
+               "INVARIANTS RoundTrip ShortestHeads TextIsUtf8 MapCanonical PermIndependent DupRefused\nCHECK_DEADLOCK FALSE\n" % (mc, u1, u2, u3, "TRUE" if goon else "FALSE"))
         r = tlc("MC_CborEnc", cfg, "C11/" + name)
         rep.add_tlc("MC_CborEnc:" + name, r)
         vp = os.path.join(wd, "vec-%s.txt" % name)
